@@ -33,93 +33,160 @@ def const_strings(body):
     return out
 
 
-def ids(ctx, report, rule, facts, config, rejected_leaves_map=False):
-    """C02.IDS: add() draws one fresh id, resolves every dependency name
-    through the map before its own name is entered, and gives the same id to
-    the map and to insert."""
-    prog = ctx.program(facts)
+def _add_model(ctx, facts):
+    from . import semq as Q
     add = facts.one(A.DB + "::add")
+    nid = facts.one(A.DB + "::next_id")
+    ins = facts.one(A.SB + "::insert")
+    ev, ends = Q.sem(ctx, facts, A.DB + "::add", opaque=[A.DB + "::next_id", A.SB + "::insert"])
+    return add, nid, ins, ev, ends
+
+
+def _deep_events(events):
+    """Events of a path including those of the loop iterations by which its loops were left."""
+    out = []
+    for x in events:
+        out.append(x)
+        if x[0] == "loop" and x[2] is not None:
+            out.extend(_deep_events(x[1].iters[x[2]].path.events))
+    return out
+
+
+def _strings(events):
+    out = []
+    for x in _deep_events(events):
+        if x[0] == "call":
+            for a in x[3]:
+                for s_ in subterms(a):
+                    if s_[0] == "const" and isinstance(s_[1], str):
+                        out.append(s_[1])
+    return " ".join(out)
+
+
+def _map_field(ev, t):
+    from . import semq as Q
+    f_, i_, base = Q.table_access(ev, t)
+    return Q.crate_fields(f_)[-1:] == [(A.DB, "map")] and base == ("param", 1)
+
+
+def _dep_loop(ev, e):
+    """The traversal of the `dep` parameter on this path: (Loop, index of the way it was left by, position) or None."""
+    from . import semq as Q
+    hits = [(pos, x) for pos, x in enumerate(e.path.events) if x[0] == "loop" and x[1].source is not None and Q.strip(ev, x[1].source) == ("param", 4)]
+    if len(hits) != 1:
+        return None
+    pos, x = hits[0]
+    return x[1], x[2], pos
+
+
+def _lookup_ways(ev, L):
+    """Problems with how one step of the dependency traversal resolves a name."""
+    from . import semq as Q
+    pr = []
+    for it in L.iters:
+        if it.end == "done":
+            continue
+        gets = [c for c in Q.calls_in(it.path.events, lambda c: c.name == "get" and not c.local and "HashMap" in c.path)]
+        if len(gets) != 1 or not _map_field(ev, gets[0][3][0]) or Q.strip(ev, gets[0][3][1]) != L.elem:
+            pr.append("a dependency name is not resolved by exactly one self.map.get(name)")
+            continue
+        g = gets[0][4]
+        v = it.path.variant(g)
+        if it.end == "continue":
+            if v != "Some":
+                pr.append("a dependency name that is not in the map does not reach the panic")
+                continue
+            want = ("field", ("variant", g, "Some"), "0", "std::option::Option")
+            ys = [x[2] for x in it.path.events if x[0] == "yield"] + [c[3][1] for c in Q.calls_in(it.path.events, lambda c: c.name == "push" and not c.local) if len(c[3]) == 2]
+            if len(ys) != 1 or Q.strip(ev, ys[0]) != want:
+                pr.append("the id found for a dependency name is not what enters the dependency list")
+        elif it.end in ("break", "diverge"):
+            if v != "None":
+                pr.append("the dependency traversal stops although the name was found")
+        else:
+            pr.append("the dependency traversal can return")
+    return pr
+
+
+def ids(ctx, report, rule, facts, config, rejected_leaves_map=False):
+    """C02.IDS: add() draws one fresh id, resolves every dependency name through the map before its own name is
+    entered, and gives the same id to the map and to insert."""
+    from . import semq as Q
+    add, nidb, insb, ev, ends = _add_model(ctx, facts)
     report.touched(add, config)
-    paths = [p for p in enumerate_paths(add, facts) if p.end == "return"]
+    rets = [e for e in ends if e.kind == "return"]
     problems = []
-    for p in paths:
-        calls = p.calls()
-        nid = [e for e in calls if e[2].name == "next_id" and e[2].self_head == A.DB]
-        ins = [e for e in calls if e[2].name == "insert" and e[2].self_head == A.SB]
-        col = [e for e in calls if e[2].name == "collect"]
-        ent = [e for e in calls if e[2].name == "entry" and "HashMap" in e[2].path]
-        vin = [e for e in calls if e[2].name == "insert" and "VacantEntry" in e[2].path]
+    lookup = []
+    for e in rets:
+        calls = [x for x in e.path.events if x[0] == "call"]
+        pos = dict((id(x), i) for i, x in enumerate(e.path.events))
+        nid = [x for x in calls if x[2].key == nidb.key]
+        ins = [x for x in calls if x[2].key == insb.key]
+        ent = [x for x in calls if x[2].name == "entry" and "HashMap" in x[2].path]
+        vin = [x for x in calls if x[2].name == "insert" and "VacantEntry" in x[2].path]
         if len(nid) != 1:
             problems.append("next_id is called %d time(s) on a path" % len(nid))
             continue
-        idt = ("call", nid[0][1], nid[0][3])
+        idt = nid[0][4]
         if len(ins) != 1:
             problems.append("StagesBuilder::insert is called %d time(s) on a path" % len(ins))
             continue
         a = ins[0][3]
-        if a[2] != idt:
+        if Q.strip(ev, a[2]) != idt:
             problems.append("the id handed to insert is not the fresh id")
         if not (a[0] == ("field", ("param", 1), "stages_builder", A.DB) and a[3] == ("param", 2)):
             problems.append("insert is not called as self.stages_builder.insert(deps, id, system)")
-        if len(col) != 1 or a[1] != ("call", col[0][1], col[0][3]):
-            problems.append("the dependency list handed to insert is not the one collected from `dep`")
+        dl = _dep_loop(ev, e)
+        if dl is None:
+            problems.append("dependencies are not collected from every entry of `dep`")
         else:
-            # collected from dep.iter().map(lookup)
-            src = col[0][3][0]
-            okd = P._is_call(add, src, "map") and root(src[2][0], prog.bt(add), facts.crate)[0] == ("param", 4)
-            if not okd:
+            L, idx, lpos = dl
+            if idx is None or L.iters[idx].end != "done" or L.stages and [n for n, _ in L.stages if n != "map"]:
                 problems.append("dependencies are not collected from every entry of `dep`")
+            lst = Q.strip(ev, a[1])
+            built_here = (lst[0] == "call" and lst[1] == L.site) or any(
+                Q.strip(ev, c[3][0]) == lst for it in L.iters for c in Q.calls_in(it.path.events, lambda c: c.name == "push" and not c.local))
+            if not built_here:
+                problems.append("the dependency list handed to insert is not the one collected from `dep`")
+            lookup.extend(_lookup_ways(ev, L))
+            for v in vin:
+                if pos[id(v)] < lpos:
+                    problems.append("the system's own name is entered before its dependencies are resolved")
+            for x in ent:
+                if pos[id(x)] < lpos:
+                    problems.append("the name map is modified before the dependencies are resolved")
         for v in vin:
-            if v[3][1] != idt:
+            if Q.strip(ev, v[3][1]) != idt:
                 problems.append("the id entered into the name map is not the fresh id")
-            if col and p.blocks.index(col[0][1]) > p.blocks.index(v[1]):
-                problems.append("the system's own name is entered before its dependencies are resolved")
-        for e in ent:
-            if col and p.blocks.index(col[0][1]) > p.blocks.index(e[1]):
-                problems.append("the name map is modified before the dependencies are resolved")
     # a registration that is rejected (panics) must leave the name map as it was: every change of the
     # map lies on a path that goes on to place the system under the same id
-    for p in (enumerate_paths(add, facts) if rejected_leaves_map else []):
+    for e in (ends if rejected_leaves_map else []):
         muts = []
-        for e in p.calls():
-            c = e[2]
-            if c.local or not e[3]:
+        for x in _deep_events(e.path.events):
+            if x[0] != "call" or x[2].local or not x[3]:
                 continue
+            c = x[2]
             if c.name == "insert" and "VacantEntry" in c.path:
-                muts.append(e)
-            elif c.name in ("insert", "remove", "clear", "retain", "extend", "drain") and ("HashMap" in c.path or "AHashMap" in c.path):
-                f_, i_, base = S.table_access(add, e[3][0])
-                if S.crate_fields(f_)[-1:] == [(A.DB, "map")]:
-                    muts.append(e)
-        placed = [e for e in p.calls() if e[2].name == "insert" and e[2].self_head == A.SB]
-        if muts and (p.end != "return" or len(placed) != 1):
+                muts.append(x)
+            elif c.name in ("insert", "remove", "clear", "retain", "extend", "drain") and ("HashMap" in c.path or "AHashMap" in c.path) and _map_field(ev, x[3][0]):
+                muts.append(x)
+        placed = [x for x in e.path.events if x[0] == "call" and x[2].key == insb.key]
+        if muts and (e.kind != "return" or len(placed) != 1):
             problems.append("the name map is changed by `%s` on a path that does not place the system (a rejected registration leaves a stale name: the printed plan no longer matches what runs)" % muts[0][2].name)
-    report.ob(rule, "add/ids", not problems and len(paths) >= 2, "; ".join(sorted(set(problems))) if problems else
-              "one fresh id per call, dependencies resolved first, same id for the name map and the placement (%d paths)" % len(paths), site=add.loc(), config=config)
-    # the lookup closure: map.get(name) on the captured map
-    look = [c for c in facts.closures_of(add, False)]
-    ok = False
-    if len(look) == 1:
-        lb = look[0]
-        report.touched(lb, config)
-        bt = prog.bt(lb)
-        gets = [bb for bb, t in lb.normal_calls() if Callee(t["func"]).name == "get" and "HashMap" in Callee(t["func"]).path]
-        ok = len(gets) == 1 and bt.call_args(gets[0])[0][0] == "upvar" and root(bt.call_args(gets[0])[1], bt, facts.crate)[0] == ("param", 2)
-        cr = prog.creation(lb)
-        if ok and cr:
-            caps = dict(zip(cr[1][4], cr[1][3]))
-            ok = list(caps.values()) == [("field", ("param", 1), "map", A.DB)]
-    report.ob(rule, "add/lookup", ok, "each dependency name is looked up with self.map.get(name)" if ok else "dependency names are not resolved through self.map.get", site=add.loc(), config=config)
+    report.ob(rule, "add/ids", not problems and len(rets) >= 2, "; ".join(sorted(set(problems))) if problems else
+              "one fresh id per call, dependencies resolved first, same id for the name map and the placement (%d paths)" % len(rets), site=add.loc(), config=config)
+    report.ob(rule, "add/lookup", not lookup and bool(rets), "each dependency name is looked up with self.map.get(name)" if not lookup else "; ".join(sorted(set(lookup))), site=add.loc(), config=config)
     # next_id: returns SystemId(current_id), stores current_id + 1
-    nb = facts.one(A.DB + "::next_id")
+    nb = nidb
     report.touched(nb, config)
-    ps = [p for p in enumerate_paths(nb, facts) if p.end == "return"]
-    ok = len(ps) == 1
+    ev2, ends2 = Q.sem(ctx, facts, A.DB + "::next_id")
+    r2 = [e for e in ends2 if e.kind == "return"]
+    ok = len(r2) == 1
     if ok:
-        p = ps[0]
+        e = r2[0]
         cur = ("field", ("param", 1), "current_id", A.DB)
-        st = [e for e in p.effects if e[0] == "store" and e[2] == cur]
-        ok = (p.ret[0] == "agg" and p.ret[2] == A.SYSID + "::SystemId" and p.ret[3] == (cur,) and len(st) == 1 and P.fold_like(st[0][3], cur, 1))
+        st = [x for x in e.path.events if x[0] == "store" and x[2] == cur]
+        ok = (e.ret[0] == "agg" and e.ret[2] == A.SYSID + "::SystemId" and e.ret[3] == (cur,) and len(st) == 1 and P.fold_like(st[0][3], cur, 1))
     report.ob(rule, "next_id", ok, "returns SystemId(current_id) and stores current_id + 1" if ok else "next_id does not hand out consecutive fresh ids", site=nb.loc(), config=config)
     # nobody else writes current_id or the map
     n = 0
@@ -138,44 +205,65 @@ def ids(ctx, report, rule, facts, config, rejected_leaves_map=False):
 
 def reject(ctx, report, rule, facts, config):
     """C18.REJECT / EMPTY: the two documented panics are exactly guarded."""
-    prog = ctx.program(facts)
-    add = facts.one(A.DB + "::add")
+    from . import semq as Q
+    add, nidb, insb, ev, ends = _add_model(ctx, facts)
     report.touched(add, config)
-    all_paths = enumerate_paths(add, facts)
     problems = []
+    pr = []
     dup_seen = False
+    unk_seen = False
     n_ok_paths = 0
-    for p in all_paths:
+    for e in ends:
         is_empty = None
         entry_variant = None
-        for (ct, cv, cn, cb) in p.conds:
-            if P._is_call(add, ct, "is_empty") and ct[2] == (("param", 3),):
+        for (ct, cv, cn, cs) in e.path.conds:
+            if Q.is_call(ev, ct, "is_empty") and Q.strip(ev, ct[2][0]) == ("param", 3):
                 is_empty = cv
-            elif ct[0] == "discr" and P._is_call(add, ct[1], "entry"):
-                entry_variant = cn
-        vin = [e for e in p.calls() if e[2].name == "insert" and "VacantEntry" in e[2].path]
-        ins = [e for e in p.calls() if e[2].name == "insert" and e[2].self_head == A.SB]
-        ent = [e for e in p.calls() if e[2].name == "entry" and "HashMap" in e[2].path]
-        if p.end == "diverge":
-            last = p.calls()[-1]
-            if last[2].name not in PANIC_FNS:
-                # a diverging callee that is not a panic function: the dependency lookup closure panics inside collect -> not visible here
-                problems.append("add diverges in %s" % last[2].short())
+            elif ct[0] == "discr" and Q.is_call(ev, ct[1], "entry") and _map_field(ev, ct[1][2][0]):
+                entry_variant = e.path.variant(ct[1])
+        deep = _deep_events(e.path.events)
+        calls = [x for x in e.path.events if x[0] == "call"]
+        vin = [x for x in calls if x[2].name == "insert" and "VacantEntry" in x[2].path]
+        ins = [x for x in calls if x[2].key == insb.key]
+        ent = [x for x in calls if x[2].name == "entry" and "HashMap" in x[2].path]
+        pos = dict((id(x), i) for i, x in enumerate(e.path.events))
+        if e.kind == "diverge":
+            dcalls = [x for x in deep if x[0] == "call"]
+            last = dcalls[-1] if dcalls else None
+            if last is None or last[2].name not in PANIC_FNS:
+                if [x for x in deep if x[0] == "panic"]:
+                    problems.append("add panics through %s()" % [x for x in deep if x[0] == "panic"][-1][2])
+                else:
+                    problems.append("add diverges in %s" % (last[2].short() if last else "?"))
                 continue
-            if not (is_empty == 0 and entry_variant == "Occupied"):
-                problems.append("add panics on a path that is not (name non-empty, name already registered): is_empty=%s entry=%s" % (is_empty, entry_variant))
-            else:
+            dl = _dep_loop(ev, e)
+            unknown = None
+            if dl is not None and dl[1] is not None and dl[0].iters[dl[1]].end in ("break", "diverge"):
+                L = dl[0]
+                for (ct, cv, cn, cs) in dl[0].iters[dl[1]].path.conds:
+                    if ct[0] == "discr" and Q.is_call(ev, ct[1], "get") and _map_field(ev, ct[1][2][0]) and Q.strip(ev, ct[1][2][1]) == L.elem:
+                        unknown = dl[0].iters[dl[1]].path.variant(ct[1])
+            if unknown == "None":
+                unk_seen = True
+                if "No such system" not in _strings(e.path.events):
+                    pr.append("the unknown-dependency panic does not carry the documented message")
+                fm = [x for x in deep if x[0] == "call" and x[2].name in ("new_display", "new_debug")]
+                if not any(Q.strip(ev, x[3][0]) == dl[0].elem for x in fm):
+                    pr.append("the unknown-dependency panic does not quote the offending name")
+                if ins:
+                    pr.append("the system is inserted before the unknown-dependency panic")
+            elif is_empty == 0 and entry_variant == "Occupied":
                 dup_seen = True
-                strs = " ".join(const_strings(add))
-                if "same name" not in strs:
+                if "same name" not in _strings(e.path.events):
                     problems.append("the duplicate-name panic does not carry the documented message")
-                # the message formats `name`
-                fmt = [e for e in p.calls() if e[2].name in ("new_display", "new_debug")]
-                if not any(root(e[3][0], None)[0] == ("param", 3) for e in fmt):
+                fm = [x for x in deep if x[0] == "call" and x[2].name in ("new_display", "new_debug")]
+                if not any(Q.strip(ev, x[3][0]) == ("param", 3) for x in fm):
                     problems.append("the duplicate-name panic does not quote the offending name")
-            if ins:
-                problems.append("the system is inserted before the duplicate-name panic")
-        elif p.end == "return":
+                if ins:
+                    problems.append("the system is inserted before the duplicate-name panic")
+            else:
+                problems.append("add panics on a path that is not (name non-empty, name already registered): is_empty=%s entry=%s" % (is_empty, entry_variant))
+        elif e.kind == "return":
             n_ok_paths += 1
             if len(ins) != 1:
                 problems.append("a returning path inserts the system %d time(s)" % len(ins))
@@ -185,59 +273,29 @@ def reject(ctx, report, rule, facts, config):
             elif is_empty == 0:
                 if entry_variant != "Vacant" or len(vin) != 1:
                     problems.append("a non-empty name is accepted without being entered into a vacant slot of the name map")
-                elif ent and ent[0][3][0] is not None:
+                elif ent:
                     key = ent[0][3][1]
-                    if not (P._is_call(add, key, "to_owned") and key[2] == (("param", 3),)):
+                    if not (Q.is_call(ev, key, "to_owned") and Q.strip(ev, key[2][0]) == ("param", 3)):
                         problems.append("the name map entry is not keyed by `name`")
             else:
                 problems.append("a returning path does not test name.is_empty()")
-            if vin and ins and p.blocks.index(vin[0][1]) > p.blocks.index(ins[0][1]):
+            if vin and ins and pos[id(vin[0])] > pos[id(ins[0])]:
                 problems.append("the name is registered after the system was placed")
     if not dup_seen:
         problems.append("no path of add rejects a duplicate non-empty name")
+    if not unk_seen:
+        pr.append("a dependency name that is not in the map does not reach the panic")
+    # no step of the dependency traversal lets a missing name through
+    for e in ends:
+        dl = _dep_loop(ev, e)
+        if dl is not None:
+            pr.extend(_lookup_ways(ev, dl[0]))
+            break
     report.ob(rule, "add/duplicate-name", not problems and n_ok_paths >= 2, "; ".join(sorted(set(problems))) if problems else
               "panics exactly when a non-empty name is already registered (message quotes the name), before the system is placed; empty names never touch the map",
               site=add.loc(), config=config)
-    # unknown dependency: lookup closure -> unwrap_or_else(|| panic!("No such system ..", name))
-    look = facts.closures_of(add, False)
-    pr = []
-    if len(look) != 1:
-        pr.append("expected one lookup closure in add, found %d" % len(look))
-    else:
-        lb = look[0]
-        report.touched(lb, config)
-        ps = enumerate_paths(lb, facts)
-        rets = [p for p in ps if p.end == "return"]
-        if len(rets) != 1:
-            pr.append("lookup closure has %d returning paths" % len(rets))
-        else:
-            r = rets[0].ret
-            b_, p_ = root(r, None)
-            if not (P._is_call(lb, b_, "unwrap_or_else") and P._is_call(lb, b_[2][0], "get")):
-                pr.append("a dependency name that is not in the map does not reach the panic (lookup result is %s)" % (r[:2],))
-            else:
-                inner = [c for c in facts.closures_of(lb, False)]
-                if len(inner) != 1:
-                    pr.append("unwrap_or_else handler not found")
-                else:
-                    ib = inner[0]
-                    report.touched(ib, config)
-                    ips = enumerate_paths(ib, facts)
-                    if not ips or any(p.end != "diverge" or p.calls()[-1][2].name not in PANIC_FNS for p in ips):
-                        pr.append("the handler for an unknown dependency can return")
-                    if "No such system" not in " ".join(const_strings(ib)):
-                        pr.append("the unknown-dependency panic does not carry the documented message")
-                    fm = [e for p in ips for e in p.calls() if e[2].name in ("new_display", "new_debug")]
-                    if not any(root(e[3][0], None)[0] == ("upvar", "x") or root(e[3][0], None)[0][0] == "upvar" for e in fm):
-                        pr.append("the unknown-dependency panic does not quote the offending name")
-                    # handler captures the name being looked up
-                    cr = prog.creation(ib)
-                    if cr:
-                        caps = list(cr[1][3])
-                        if not caps or root(caps[0], None)[0] != ("param", 2):
-                            pr.append("the handler does not capture the looked-up name")
-    report.ob(rule, "add/unknown-dependency", not pr, "; ".join(pr) if pr else
-              "map.get(name).unwrap_or_else(|| panic!(\"No such system registered (..)\", name)): panics exactly on a missing name, quoting it", site=add.loc(), config=config)
+    report.ob(rule, "add/unknown-dependency", not pr, "; ".join(sorted(set(pr))) if pr else
+              "a dependency name missing from the map panics with \"No such system registered (..)\", quoting it; found names yield their id", site=add.loc(), config=config)
 
 
 def noextra(ctx, report, rule, facts, config):
